@@ -6,10 +6,13 @@ package sqlite
 import (
 	"context"
 	"database/sql"
+	"database/sql/driver"
+	"errors"
+	"fmt"
 	"strings"
 
 	"github.com/high-moctane/mocrelay"
-	_ "github.com/mattn/go-sqlite3"
+	sqlite3 "github.com/mattn/go-sqlite3"
 )
 
 func init() { vpNative = vpNativeScenario }
@@ -76,3 +79,191 @@ func vpNativeScenario(scenario string, in map[string]string) bool {
 	}
 	panic("unknown native scenario " + scenario)
 }
+
+// ---------------------------------------------------------------------------
+// C14: fault-injecting database/sql driver around the real SQLite driver. The
+// k-th driver-level operation (begin, prepare, exec, commit: the same counting
+// as the engine-side stubs) fails.
+
+type vpFaultState struct {
+	k, n    int
+	tripped bool
+}
+
+var vpFault = &vpFaultState{}
+
+func (f *vpFaultState) step() error {
+	f.n++
+	if f.k > 0 && f.n == f.k {
+		f.tripped = true
+		return errors.New("injected driver fault")
+	}
+	return nil
+}
+
+type vpFaultDriver struct{ inner driver.Driver }
+
+func (d vpFaultDriver) Open(name string) (driver.Conn, error) {
+	c, err := d.inner.Open(name)
+	if err != nil {
+		return nil, err
+	}
+	return &vpFaultConn{c}, nil
+}
+
+type vpFaultConn struct{ driver.Conn }
+
+func (c *vpFaultConn) BeginTx(ctx context.Context, opts driver.TxOptions) (driver.Tx, error) {
+	if err := vpFault.step(); err != nil {
+		return nil, err
+	}
+	tx, err := c.Conn.(driver.ConnBeginTx).BeginTx(ctx, opts)
+	if err != nil {
+		return nil, err
+	}
+	return &vpFaultTx{tx}, nil
+}
+
+func (c *vpFaultConn) PrepareContext(ctx context.Context, q string) (driver.Stmt, error) {
+	if err := vpFault.step(); err != nil {
+		return nil, err
+	}
+	st, err := c.Conn.(driver.ConnPrepareContext).PrepareContext(ctx, q)
+	if err != nil {
+		return nil, err
+	}
+	return &vpFaultStmt{st}, nil
+}
+
+type vpFaultTx struct{ driver.Tx }
+
+func (t *vpFaultTx) Commit() error {
+	if err := vpFault.step(); err != nil {
+		t.Tx.Rollback() // a failed commit leaves no open transaction
+		return err
+	}
+	return t.Tx.Commit()
+}
+
+type vpFaultStmt struct{ driver.Stmt }
+
+func (s *vpFaultStmt) ExecContext(ctx context.Context, args []driver.NamedValue) (driver.Result, error) {
+	if err := vpFault.step(); err != nil {
+		return nil, err
+	}
+	return s.Stmt.(driver.StmtExecContext).ExecContext(ctx, args)
+}
+
+func (s *vpFaultStmt) QueryContext(ctx context.Context, args []driver.NamedValue) (driver.Rows, error) {
+	return s.Stmt.(driver.StmtQueryContext).QueryContext(ctx, args)
+}
+
+var vpFaultRegistered bool
+
+func vpOpenFaulty() *sql.DB {
+	if !vpFaultRegistered {
+		sql.Register("vpfault-sqlite3", vpFaultDriver{&sqlite3.SQLiteDriver{}})
+		vpFaultRegistered = true
+	}
+	vpFault.k, vpFault.n, vpFault.tripped = 0, 0, false
+	db, err := sql.Open("vpfault-sqlite3", ":memory:")
+	if err != nil {
+		panic(err)
+	}
+	db.SetMaxOpenConns(1)
+	if err := Migrate(context.Background(), db); err != nil {
+		panic(err)
+	}
+	return db
+}
+
+func vpListIDs(db *sql.DB) string {
+	vpFault.k = 0
+	got, err := queryEvent(context.Background(), db, 7, []*mocrelay.ReqFilter{{}}, NoLimit)
+	if err != nil {
+		panic(err)
+	}
+	s := ""
+	for _, e := range got {
+		s += e.ID[:2] + fmt.Sprint(e.CreatedAt) + ","
+	}
+	return s
+}
+
+// vpNativeAtomicity: the REAL property on the real store for one fault point.
+// A batch of nsets events (event i carries ntags[i] single-letter tags and, if
+// it is a deletion request, references) is inserted with the k-th driver
+// operation failing. Returns a description of the defect, or "".
+func vpNativeAtomicity(k int, nsets int, ntags []int, preexisting []bool) string {
+	ctx := context.Background()
+	db := vpOpenFaulty()
+	defer db.Close()
+	var batch []*mocrelay.Event
+	for i := 0; i < nsets; i++ {
+		id := string(rune('1' + i))
+		var tags []mocrelay.Tag
+		for j := 0; j < ntags[i]; j++ {
+			tags = append(tags, mocrelay.Tag{"t", fmt.Sprintf("v%d%d", i, j)})
+		}
+		batch = append(batch, vpEv(id, "a", 1, int64(10+i), tags...))
+	}
+	// an older event that the batch does not touch
+	if err := insertEvents(ctx, db, 7, []*mocrelay.Event{vpEv("9", "a", 1, 1)}); err != nil {
+		panic(err)
+	}
+	for i, pre := range preexisting {
+		if pre && i < len(batch) {
+			if err := insertEvents(ctx, db, 7, []*mocrelay.Event{batch[i]}); err != nil {
+				panic(err)
+			}
+		}
+	}
+	before := vpListIDs(db)
+	vpFault.k, vpFault.n, vpFault.tripped = k, 0, false
+	err := insertEvents(ctx, db, 7, batch)
+	tripped := vpFault.tripped
+	after := vpListIDs(db)
+	if tripped {
+		if err == nil {
+			return "a driver fault during the batch was not reported"
+		}
+		if after != before {
+			return fmt.Sprintf("failed batch is not atomic: listing %q became %q", before, after)
+		}
+	} else if err != nil {
+		return "error without a fault: " + err.Error()
+	}
+	// inserting the same batch again leads to the same answers as one successful insertion
+	vpFault.k = 0
+	if err := insertEvents(ctx, db, 7, batch); err != nil {
+		return "retry failed: " + err.Error()
+	}
+	once := vpListIDs(db)
+	if err := insertEvents(ctx, db, 7, batch); err != nil {
+		return "second retry failed: " + err.Error()
+	}
+	if twice := vpListIDs(db); twice != once {
+		return fmt.Sprintf("re-inserting the batch is not idempotent: %q then %q", once, twice)
+	}
+	ref := vpOpenFaulty()
+	defer ref.Close()
+	insertEvents(ctx, ref, 7, []*mocrelay.Event{vpEv("9", "a", 1, 1)})
+	if err := insertEvents(ctx, ref, 7, batch); err != nil {
+		panic(err)
+	}
+	if want := vpListIDs(ref); want != once {
+		return fmt.Sprintf("after a failure and a retry the store answers %q, a single successful insertion gives %q", once, want)
+	}
+	// tag index complete after the retry: every tag of every batch event finds it
+	for i, e := range batch {
+		for _, t := range e.Tags {
+			got, err := queryEvent(ctx, db, 7, []*mocrelay.ReqFilter{{Tags: map[string][]string{t[0]: {t[1]}}}}, NoLimit)
+			if err != nil || len(got) != 1 || got[0].ID != e.ID {
+				return fmt.Sprintf("after the retry event %d is not found by its tag %v", i, t)
+			}
+		}
+	}
+	return ""
+}
+
+func init() { vpNativeTx = vpNativeAtomicity }
